@@ -126,3 +126,85 @@ def check_plan_validation(ctx, rule="R6-plan-validation"):
     for k, ok in found.items():
         (ctx.holds if ok else ctx.violated)(rule, f"{fkey}[{k}]", "rejected with an exception before the plan is cached" if ok else
                                             f"plan() no longer rejects scheduler output violating {k}", where)
+    _conforming_plans_accepted(ctx, R, S, rule, fkey, where)
+
+
+# concrete conforming single-bin plans: (N, L, olap, fs, f) -> K by the count formula, evenly spread starts, reported overlap 1 - shift/L
+_CONFORMING = [dict(N=1040, L=100, olap=0.0, fs=1.0, f=0.05), dict(N=1000, L=100, olap=0.5, fs=1.0, f=0.05), dict(N=4096, L=1000, olap=0.3, fs=2.0, f=0.01),
+               dict(N=1000, L=300, olap=0.1, fs=1.0, f=0.02)]
+
+
+def _instance_values(inst):
+    import math
+    N, L, olap, fs, f = inst["N"], inst["L"], inst["olap"], inst["fs"], inst["f"]
+    K = min(math.floor(1 + (N - L) / ((1 - olap) * L) + 0.5), N - L + 1)
+    shift = (N - L) / (K - 1) if K > 1 else None
+    vals = {"sch.L": L, "sch.K": K, "sch.navg": K, "sch.f": f, "sch.r": fs / L, "sch.b": f * L / fs, "sch.m": f * L / fs}
+    if shift is not None: vals["sch.O"] = 1 - shift / L
+    return vals, {"N": float(N), "fs": fs, "olap": olap, "nx": float(N)}
+
+
+def _eval3(cond, vals, fixed):
+    """three-valued truth of an interpreter condition on one conforming bin: True / False / None (not evaluable)."""
+    from .symalg import NumEnv, evalx
+    from fractions import Fraction
+
+    def num(x):
+        table = {}
+        for a in x.all_atoms():
+            if a.tag == "idx" and a.name in vals: table[a.key] = X.const(Fraction(vals[a.name]).limit_denominator(10 ** 9))
+            elif a.tag == "idx" and a.name.startswith("sch."): return None
+        y = x.rewrite(table) if table else x
+        if any(a.tag in ("idx", "fn") and not (a.tag == "fn" and a.name in ("abs", "min", "max", "nearest", "trunc", "floor", "ceil", "sqrt")) for a in y.all_atoms()): return None
+        env = NumEnv(3); env.fixed.update(fixed)
+        if any(a.tag == "v" and a.name not in fixed for a in y.all_atoms()): return None
+        try: return evalx(y, env)
+        except Exception: return None
+
+    def tree(v):
+        if isinstance(v, bool): return v
+        if isinstance(v, PV):
+            t = _eval3(v.cond, vals, fixed)
+            if t is None:
+                a, b = tree(v.hi), tree(v.lo)
+                return a if a == b else None
+            return tree(v.hi if t else v.lo)
+        if isinstance(v, Arr): return tree(v.body)
+        return None
+    d = getattr(cond, "lt", None)
+    if d is not None:
+        z = num(d)
+        return None if z is None else (z.real < 0)
+    e = getattr(cond, "eq", None)
+    if e is not None:
+        z = num(e[1] - e[2])
+        return None if z is None else (abs(z) < 1e-12)
+    for attr in ("any_of", "all_of"):
+        A = getattr(cond, attr, None)
+        if A is not None:
+            t = tree(as_arr(A).body if as_arr(A) is not None else None)
+            return t          # one bin: any == all == the bin's own truth
+    t = getattr(cond, "tree", None)
+    if t is not None: return tree(t)
+    return None
+
+
+def _conforming_plans_accepted(ctx, R, S, rule, fkey, where):
+    """plan() must not reject scheduler output that conforms to the scheduler rules: every guard that leads to an exception is evaluated on concrete
+    conforming single-bin plans (count formula, evenly spread starts, reported overlap = 1 - shift/L, which is negative for widely spread segments)."""
+    guards = list(getattr(R, "top", None).assumed if getattr(R, "top", None) is not None else []) + list(S["assumed"])
+    rejected = None; n = 0
+    for cond, pol in guards:
+        for inst in _CONFORMING:
+            vals, fixed = _instance_values(inst)
+            t = _eval3(cond, vals, fixed)
+            if t is None: continue
+            n += 1
+            if t != pol and rejected is None:
+                rejected = (cond, inst, vals)
+    if rejected is not None:
+        cond, inst, vals = rejected
+        ctx.violated(rule, f"{fkey}[conforming plan accepted]", f"plan() raises for a scheduler output that obeys every scheduler rule: the guard [{cond.text}] fires for the bin "
+                     f"N={inst['N']}, L={inst['L']}, olap={inst['olap']} (K={vals['sch.K']}, reported overlap {vals.get('sch.O')!r:.8}): admissible configurations can no longer be planned"[:500], where)
+    else:
+        ctx.holds(rule, f"{fkey}[conforming plan accepted]", f"no exception guard fires on the conforming reference plans ({n} guard evaluations)", where)
